@@ -142,7 +142,7 @@ BelievedIn(W, p, a) == IF ~Has(W, p) THEN "none"
 
 (* ---------------- ghost ---------------------------------------------------- *)
 NoPre == [ws |-> EmptyF, cache |-> EmptyF, hist |-> EmptyF, fstab |-> EmptyF, tab |-> "absent", htorn |-> {}]
-G0 == [kind |-> "none", goal |-> "", pre |-> NoPre, execs |-> {}, dup |-> FALSE, baks |-> {}, takes |-> {},
+G0 == [kind |-> "none", goal |-> "", pre |-> NoPre, execs |-> {}, dup |-> FALSE, baks |-> {}, takes |-> {}, tk |-> {},
        ever |-> {}, utd |-> EmptyF, sinceCrash |-> FALSE, expect |-> <<>>, nuser |-> 0,
        ever0 |-> {}, utd0 |-> EmptyF, sc0 |-> FALSE]
 
@@ -157,14 +157,14 @@ Recorded(execs, errs) ==
 Fold(gg, e, W, C, H, T, D, scopeT) ==
   CASE e.a \in {"build", "clean"} ->
          [gg EXCEPT !.kind = e.a, !.goal = e.g, !.pre = [ws |-> W, cache |-> C, hist |-> H, fstab |-> T, tab |-> D.tab, htorn |-> D.htorn],
-                    !.execs = {}, !.dup = FALSE, !.baks = {}, !.takes = {}, !.nuser = @ + 1,
+                    !.execs = {}, !.dup = FALSE, !.baks = {}, !.takes = {}, !.tk = {}, !.nuser = @ + 1,
                     !.expect = IF Has(e, "serial") THEN e.serial ELSE <<>>,
                     !.ever0 = gg.ever, !.sc0 = gg.sinceCrash,
                     !.utd0 = IF e.a = "build" /\ Has(e, "notable") THEN EmptyF ELSE gg.utd,
                     !.utd = IF e.a = "build" /\ Has(e, "notable") THEN EmptyF ELSE @]
     [] e.a = "step" ->
          CASE e.op = "bak" -> [gg EXCEPT !.baks = @ \cup {e.p}]
-           [] e.op = "take" /\ e.ok -> [gg EXCEPT !.takes = @ \cup {e.p}]
+           [] e.op = "take" /\ e.ok -> [gg EXCEPT !.takes = @ \cup {e.p}, !.tk = @ \cup {<<e.p, e.n>>}]
            [] e.op = "exec" -> [gg EXCEPT !.execs = @ \cup {[rid |-> e.rid, seen |-> e.seen, ok |-> e.ok, outs |-> e.outs]},
                                            !.dup = @ \/ \E x \in gg.execs : x.rid = e.rid]
            [] OTHER -> gg
